@@ -31,15 +31,7 @@ fn some_key(be: Be, k: Kind, r: &mut Rng, cache: &mut Vec<(Be, Vec<u8>)>) -> Vec
     if k == Kind::Local {
         return r.pattern(32);
     }
-    if be == Be::V1 {
-        // RSA key generation is slow: one key per run
-        if let Some((_, s)) = cache.iter().find(|(b, _)| *b == be) {
-            return s.clone();
-        }
-        let s = gen_secret(be);
-        cache.push((be, s.clone()));
-        return s;
-    }
+    let _ = cache; // v1 keys come from the fixed RSA pool (every DER length), the others from the library's key generation
     gen_secret(be)
 }
 
@@ -358,6 +350,39 @@ pub fn gen_c07(out: &mut impl Write, seed: u64, thorough: bool) {
             }
             let _ = i;
         }
+        // value classes of the encapsulation: library seals are repeated until every value of the last byte of an X25519
+        // ephemeral key (0..=0x7f), both P-384 point tags and extreme leading coordinate / tag / ciphertext bytes have occurred;
+        // every back end of the version (and the model) must open each of them
+        if be != Be::V1 && (be == Be::V2 || be == Be::V3 || be == Be::V4) {
+            let key = r.bytes(32);
+            let budget = if thorough { 40_000 } else { 6_000 };
+            let mut seen = std::collections::HashSet::new();
+            for _ in 0..budget {
+                let Some(s) = seal(be, &ppk, &key) else { continue };
+                let blob = crate::gen_tok::unb64(s.rsplit('.').next().unwrap());
+                let mut classes: Vec<(u8, u8)> = vec![];
+                if be.version() == 3 {
+                    classes.push((0, blob[48]));                       // point tag 02 / 03
+                    if blob[49] == 0 || blob[49] == 0xff { classes.push((1, blob[49])); }
+                    classes.push((2, blob[96] >> 5));                  // low byte of x, coarse
+                } else {
+                    classes.push((0, blob[63]));                       // top byte of the X25519 u-coordinate
+                    if blob[32] == 0 || blob[32] == 0xff { classes.push((1, blob[32])); }
+                }
+                if blob[0] == 0 || blob[0] == 0xff { classes.push((3, blob[0])); }
+                let last = *blob.last().unwrap();
+                if last == 0 || last == 0xff { classes.push((4, last)); }
+                let mut fresh = false;
+                for c in classes { if seen.insert(c) { fresh = true; } }
+                if fresh {
+                    for b2 in ALL_BE {
+                        if b2.version() == be.version() {
+                            writeln!(out, "seal.open {} {} {} want=ok:{}", b2.name(), hex(&psk), hex(s.as_bytes()), hex(&key)).unwrap();
+                        }
+                    }
+                }
+            }
+        }
     }
 }
 
@@ -543,11 +568,16 @@ pub fn gen_c08(out: &mut impl Write, seed: u64, thorough: bool) {
 pub fn gen_c13(out: &mut impl Write, seed: u64, thorough: bool) {
     let mut r = Rng::new(seed ^ 0xC13);
     for be in ALL_BE {
-        let n = if be == Be::V1 { 1 } else if thorough { 100 } else { 12 };
+        // v1: one key of every PKCS#1 DER length in the RSA pool (the PASERK text of a k1.secret is 1590..1602 characters)
+        let n = if be == Be::V1 { if thorough { 16 } else { 6 } } else if thorough { 100 } else { 12 };
         for _ in 0..n {
             let sk = gen_secret(be);
             let pk = public_of(be, &sk);
             let lk = r.pattern(32);
+            // independent recomputation of the id from the key's PASERK text (oracle side)
+            writeln!(out, "o.id.spec {} local {}", be.name(), hex(&lk)).unwrap();
+            writeln!(out, "o.id.spec {} secret {}", be.name(), hex(&sk)).unwrap();
+            writeln!(out, "o.id.spec {} public {}", be.name(), hex(&pk)).unwrap();
             writeln!(out, "id {} local {}", be.name(), hex(&lk)).unwrap();
             writeln!(out, "id {} secret {}", be.name(), hex(&sk)).unwrap();
             writeln!(out, "id {} public {}", be.name(), hex(&pk)).unwrap();
@@ -795,6 +825,100 @@ pub fn gen_c17(out: &mut impl Write, seed: u64, thorough: bool) {
         for (k, threads) in [2usize, 4, 8, 16].iter().enumerate() {
             let iters = if be == Be::V1 { if thorough { 100 } else { 20 } } else if thorough { 5000 } else { 600 };
             writeln!(out, "o.conc {} {} {} {}", be.name(), threads, iters, seed.wrapping_add(k as u64)).unwrap();
+        }
+    }
+}
+
+/// inputs for the reduced-build smoke binaries (C19): for each RustCrypto back end, artefacts built by the full library
+/// (tokens, key texts, ids, wrapped / sealed keys) plus a few damaged ones; every line is processed by the full-feature
+/// smoke build (reference) and by each reduced build
+pub fn gen_c19smoke(out: &mut impl Write, seed: u64, thorough: bool) {
+    let mut r = Rng::new(seed ^ 0xC19);
+    let reps = if thorough { 6 } else { 2 };
+    for be in [Be::V1, Be::V2, Be::V3, Be::V4] {
+        let b = be.name();
+        writeln!(out, "consts {b}").unwrap();
+        let (psk, ppk) = pke_pair(be);
+        for i in 0..reps {
+            let lk = r.pattern(32);
+            let sk = gen_secret(be);
+            let pk = public_of(be, &sk);
+            let msg = r.bytes_in(0, 120);
+            let f = if i % 2 == 0 { vec![] } else { r.bytes_in(1, 20) };
+            let a = if be.has_aad() && i % 2 == 1 { r.bytes_in(1, 20) } else { vec![] };
+            // key text, decoding, ids
+            for (kn, raw) in [("local", &lk), ("secret", &sk), ("public", &pk), ("pkesecret", &psk), ("pkepublic", &ppk)] {
+                writeln!(out, "ktext {b} {kn} {}", hex(raw)).unwrap();
+                writeln!(out, "kdec {b} {kn} {}", hex(raw)).unwrap();
+                writeln!(out, "id {b} {kn} {}", hex(raw)).unwrap();
+                let mut bad = raw.to_vec();
+                bad.push(0);
+                writeln!(out, "kdec {b} {kn} {}", hex(&bad)).unwrap();
+                let text = with_v!(be, V => match kn {
+                    "local" => paseto_core::paserk::KeyText::<V, Local>::from_raw_bytes(raw).to_string(),
+                    "secret" | "pkesecret" => paseto_core::paserk::KeyText::<V, Secret>::from_raw_bytes(raw).to_string(),
+                    _ => paseto_core::paserk::KeyText::<V, paseto_core::version::Public>::from_raw_bytes(raw).to_string(),
+                });
+                writeln!(out, "kparse {b} {kn} {}", hex(text.as_bytes())).unwrap();
+                for other in ["local", "secret", "public"] {
+                    writeln!(out, "kparse {b} {other} {}", hex(text.as_bytes())).unwrap();
+                }
+            }
+            let ids: Vec<(&str, String)> = with_v!(be, V => vec![
+                ("local", key_of::<V, Local>(&lk).unwrap().id().to_string()),
+                ("secret", key_of::<V, Secret>(&sk).unwrap().id().to_string()),
+                ("public", key_of::<V, paseto_core::version::Public>(&pk).unwrap().id().to_string()),
+            ]);
+            for (kn, s) in &ids {
+                for parser in ["local", "secret", "public", "pkesecret", "pkepublic"] {
+                    writeln!(out, "idparse {b} {parser} {}", hex(s.as_bytes())).unwrap();
+                }
+                let _ = kn;
+            }
+            writeln!(out, "kpub {b} {}", hex(&sk)).unwrap();
+            // tokens
+            if let Some(tok) = crate::gen_tok::encrypt_own(be, &lk, &msg, &f, &a) {
+                writeln!(out, "tokrt {b} local {}", hex(tok.as_bytes())).unwrap();
+                writeln!(out, "tokrt {b} public {}", hex(tok.as_bytes())).unwrap();
+                writeln!(out, "lopen {b} {} {} {}", hex(&lk), hex(tok.as_bytes()), hex(&a)).unwrap();
+                let mut bad = tok.clone().into_bytes();
+                let n = bad.len();
+                bad[n - 3] = if bad[n - 3] == b'A' { b'B' } else { b'A' };
+                writeln!(out, "lopen {b} {} {} {}", hex(&lk), hex(&bad), hex(&a)).unwrap();
+                writeln!(out, "lopen {b} {} {} {}", hex(&r.pattern(32)), hex(tok.as_bytes()), hex(&a)).unwrap();
+            }
+            if let Some(tok) = crate::gen_tok::sign_own(be, &sk, &msg, &f, &a) {
+                writeln!(out, "tokrt {b} public {}", hex(tok.as_bytes())).unwrap();
+                writeln!(out, "popen {b} {} {} {}", hex(&pk), hex(tok.as_bytes()), hex(&a)).unwrap();
+                let mut bad = tok.clone().into_bytes();
+                let n = bad.len();
+                bad[n - 3] = if bad[n - 3] == b'A' { b'B' } else { b'A' };
+                writeln!(out, "popen {b} {} {} {}", hex(&pk), hex(&bad), hex(&a)).unwrap();
+            }
+            let nonce = r.bytes(crate::gen_tok::local_nonce_len(be));
+            writeln!(out, "lseal {b} {} {} {} {} {}", hex(&lk), hex(&nonce), hex(&msg), hex(&f), hex(&a)).unwrap();
+            writeln!(out, "psign {b} {} {} {} {}", hex(&sk), hex(&msg), hex(&f), hex(&a)).unwrap();
+            writeln!(out, "lrt {b} {} {} {} {}", hex(&lk), hex(&msg), hex(&f), hex(&a)).unwrap();
+            writeln!(out, "prt {b} {} {} {} {}", hex(&sk), hex(&msg), hex(&f), hex(&a)).unwrap();
+            // PASERK operations
+            let wk = r.pattern(32);
+            for (k, kn, raw) in [(Kind::Local, "local", &lk), (Kind::Secret, "secret", &sk)] {
+                if let Some(w) = pie_wrap(be, k, &wk, raw) {
+                    writeln!(out, "pieopen {b} {kn} {} {}", hex(&wk), hex(w.as_bytes())).unwrap();
+                    writeln!(out, "pieopen {b} {kn} {} {}", hex(&lk), hex(w.as_bytes())).unwrap();
+                }
+                writeln!(out, "piert {b} {kn} {} {}", hex(&wk), hex(raw)).unwrap();
+                let params = min_params(be);
+                if let Some(w) = pw_wrap(be, k, b"correct horse", raw, &params) {
+                    writeln!(out, "pwopen {b} {kn} {} {}", hex(b"correct horse"), hex(w.as_bytes())).unwrap();
+                    writeln!(out, "pwopen {b} {kn} {} {}", hex(b"wrong"), hex(w.as_bytes())).unwrap();
+                }
+                writeln!(out, "pwrt {b} {kn} {} {} {}", hex(b"pw"), hex(pw_template(be, k, &params, 32).as_bytes()), hex(raw)).unwrap();
+            }
+            if let Some(s) = seal(be, &ppk, &lk) {
+                writeln!(out, "sealopen {b} {} {}", hex(&psk), hex(s.as_bytes())).unwrap();
+            }
+            writeln!(out, "sealrt {b} {} {} {}", hex(&ppk), hex(&psk), hex(&lk)).unwrap();
         }
     }
 }
